@@ -23,7 +23,7 @@ func C01(c *Ctx) {
 
 	r.Rule("C01-1", "pipeline: the bytes given to os.WriteFile (and returned) are result 0 of format.Source applied to result 0 of imports.Process(outPath, <result 0 of generateContent>, nil), each taken on its nil-error edge")
 	if g := c.generateFacts("C01-1"); g != nil {
-		d := g.data
+		d := g.dataInl
 		ok := d.Kind == "extract" && d.Name == "0" && d.Args[0].IsCallTo("go/format.Source")
 		var imp *core.Term
 		if ok {
@@ -41,7 +41,7 @@ func C01(c *Ctx) {
 		}
 		for i, ret := range c.successReturns(g.fn) {
 			t := c.O.Of(ret.Results[0])
-			r.Check("C01-1", sprintf("%s:success%d:returns-formatted", FnKey(g.fn), i+1), c.InstrPos(ret), t.String() == d.String(), "a success return hands back bytes other than the formatted ones: "+t.String())
+			r.Check("C01-1", sprintf("%s:success%d:returns-formatted", FnKey(g.fn), i+1), c.InstrPos(ret), t.String() == g.data.String(), "a success return hands back bytes other than the formatted ones: "+t.String())
 		}
 	}
 
@@ -245,6 +245,7 @@ func (c *Ctx) visibilityRules(rule string) {
 		exported := c.M(true, func(t *core.Term) bool { return t.IsCallTo("go/ast.IsExported") && t.Args[0].String() == leaf })
 		// … taken from the field whose name is the member's
 		okField := false
+		namedExcluded := false
 		for _, b := range fn.Blocks {
 			for _, in := range b.Instrs {
 				if v, isV := in.(ssa.Value); isV && fieldPkg(c.O.Of(v)) {
@@ -252,6 +253,11 @@ func (c *Ctx) visibilityRules(rule string) {
 						continue
 					}
 					d := c.ReachOf(in)
+					if len(d) > 0 && d.Implies(c.M(false, func(t *core.Term) bool {
+						return t.Kind == "extract" && t.Name == "1" && t.Args[0].Kind == "typeassert,ok" && t.Args[0].Name == "*types.Named"
+					})) {
+						namedExcluded = true
+					}
 					okField = d.Implies(c.M(true, func(t *core.Term) bool {
 						if t.Kind != "binop" || t.Name != "==" {
 							return false
@@ -267,6 +273,7 @@ func (c *Ctx) visibilityRules(rule string) {
 				}
 			}
 		}
+		r.Check(rule, FnKey(fn)+":package-of-the-field:named-types-too", c.Pos(fn.Pos()), okField && !namedExcluded, "the field's own package is consulted for unnamed struct types only: a type defined in this package on top of an imported struct (`type Record ext.Account`) has ext's fields, whose unexported members this package cannot touch")
 		r.Check(rule, FnKey(fn)+":package-of-the-field", c.Pos(fn.Pos()), okField, "the member's visibility is not judged by the package of the struct field of that name ((*types.Var).Pkg() taken under Field(i).Name() == name): the members of an unnamed struct type written in another package (`Limit struct{ max int }` inside an imported type) count as visible")
 		notBlank := c.M(false, eqConst(func(t *core.Term) bool { return t.String() == leaf }, `"_"`))
 		r.Check(rule, FnKey(fn)+":true⇒not-blank", c.Pos(fn.Pos()), len(tr) > 0 && tr.Implies(notBlank), "the blank field `_` is called accessible: it can neither be read nor assigned (`dst._ = src._` does not compile); true-condition: "+tr.Describe(c.O))
